@@ -33,6 +33,7 @@ __all__ = [
     "Atom", "enumerate_bodies", "count_stmts", "depth_of", "falls_through",
     "has_dead_code", "n_conds", "render", "render_map", "points", "explore_paths",
     "Exploration", "to_json", "from_json", "show", "brute_force_paths",
+    "path_count_bound",
 ]
 
 
@@ -439,6 +440,22 @@ def explore_paths(body, init_state, step: Callable) -> Exploration:
     ex.n_states = sum(len(v) for v in ex.before.values()) + len(ex.exits)
     ex.n_transitions = trans[0]
     return ex
+
+
+def path_count_bound(body, max_iter: int = 4) -> int:
+    """Upper bound on the number of paths `brute_force_paths` walks (for a
+    deterministic `step`); lets a client decide whether the cross-check is cheap."""
+    n = 1
+    for st in body:
+        k = st[0]
+        if k == "if":
+            n *= path_count_bound(st[1], max_iter) + (path_count_bound(st[2], max_iter) if st[2] else 1)
+        elif k in ("while", "for"):
+            b = path_count_bound(st[1], max_iter)
+            n *= sum(b ** i for i in range(max_iter + 1))
+        if n > 10 ** 9:
+            return n
+    return n
 
 
 def brute_force_paths(body, init_state, step: Callable, max_iter: int = 4):
